@@ -54,7 +54,7 @@ Ops ==
   \cup (IF "unrelay" \in Alpha THEN {[D EXCEPT !.o = "unrelay", !.r = r] : r \in rs} ELSE {})
   \cup (IF "evh" \in Alpha /\ Len(S.evh) < MaxE THEN {[D EXCEPT !.o = "evh", !.h = h] : h \in hs} ELSE {})
   \cup (IF "evcancel" \in Alpha THEN {[D EXCEPT !.o = "evcancel", !.e = e] : e \in es} ELSE {})
-  \cup (IF "reg" \in Alpha THEN {[D EXCEPT !.o = "reg", !.t = t, !.v = ValDef(v).v, !.inl = ValDef(v).inl, !.to = ValDef(v).to, !.conc = ValDef(v).conc] : t \in GT, v \in Vals} ELSE {})
+  \cup (IF "reg" \in Alpha THEN {[D EXCEPT !.o = "reg", !.t = t, !.v = ValDef(v).v, !.inl = ValDef(v).inl, !.to = ValDef(v).to, !.conc = ValDef(v).conc, !.opt = ValDef(v).ty] : t \in GT, v \in Vals} ELSE {})
   \cup (IF "unreg" \in Alpha THEN {[D EXCEPT !.o = "unreg", !.t = t] : t \in GT} ELSE {})
        \* a local publication must not run into a blocking validator (the call itself would park)
   \cup (IF "pub" \in Alpha THEN {[D EXCEPT !.o = "pub", !.h = h, !.m = m, !.mode = md] :
